@@ -18,11 +18,23 @@ def main(argv=None):
         print("CHECKER-ERROR cannot import props.%s" % a.pid)
         return 3
     if a.replay:
+        # replay = the recorded obligation is generated again from /repo's current source; exit 1 iff it fails again
         with open(a.replay) as fp:
             rec = json.load(fp)
-        if hasattr(mod, "replay"):
-            return mod.replay(rec)
-        print(json.dumps(rec, indent=1))
+        want = rec.get("failed_obligation")
+        print("replaying obligation %r of %s (recorded witness: %s)" % (want, a.pid, str(rec.get("native_replay") or rec.get("model"))[:400]))
+        os.environ["VERIF_EVIDENCE_DIR"] = os.environ.get("VERIF_EVIDENCE_DIR") or os.path.join(core.HERE, "replays", "_evidence")
+        s = core.Session(a.pid, a.tier, seed, level=getattr(mod, "LEVEL", "proof"))
+        s.keep_replays = True
+        try:
+            mod.run(s)
+        except Exception:
+            s.crashed.append(("run", traceback.format_exc()[-3000:]))
+        again = [(n, p, suf) for n, p, suf in s.violations if n == want]
+        if again:
+            print("VIOLATION property=%s replay=%s%s" % (a.pid, again[0][1], again[0][2]))
+            return 1
+        print("obligation %r holds on the current tree" % want)
         return 0
     s = core.Session(a.pid, a.tier, seed, level=getattr(mod, "LEVEL", "proof"))
     try:
